@@ -186,8 +186,18 @@ func reqOf(ctx context.Context) int {
 	return 0
 }
 
+// observerKey marks a context used by the harness itself to LOOK at the provider between requests (e.g. the
+// TokenInfo helper asked for the confirmation of a token just issued): such calls are not part of any
+// request - no log entry, no fault, no scheduling.
+type observerKey struct{}
+
+func observerCtx() context.Context { return context.WithValue(context.Background(), observerKey{}, true) }
+
 // before is called at the start of every storage call; it returns the fault to apply.
 func (s *Stores) before(ctx context.Context, k CallKind) Fault {
+	if ctx.Value(observerKey{}) != nil {
+		return FNone
+	}
 	if s.gate != nil {
 		s.gate(reqOf(ctx), k)
 	}
